@@ -29,6 +29,19 @@ ALPHABET = {
     "fasta": list(">\n -?;") + ["A", "C", "G", "T", "t1", "x"],
 }
 
+NEXUS_STATEMENTS = [
+    "BEGIN TAXA;", "DIMENSIONS NTAX=3;", "DIMENSIONS NTAX=2;", "TAXLABELS a b c;", "TAXLABELS a b;", "END;", "ENDBLOCK;",
+    "BEGIN CHARACTERS;", "BEGIN DATA;", "DIMENSIONS NCHAR=4;", "DIMENSIONS NTAX=3 NCHAR=4;", "DIMENSIONS NEWTAXA NTAX=3 NCHAR=2;",
+    "FORMAT DATATYPE=DNA;", "FORMAT DATATYPE=DNA MISSING=? GAP=- INTERLEAVE;", "FORMAT DATATYPE=STANDARD SYMBOLS=\"01\";",
+    "FORMAT DATATYPE=CONTINUOUS;", "FORMAT DATATYPE=PROTEIN MATCHCHAR=.;", "FORMAT INTERLEAVE=NO;", "FORMAT SYMBOLS=\"012\" MISSING=0;",
+    "MATRIX a ACGT b ACGT c ACGT;", "MATRIX a AC b AC c AC;", "MATRIX a 0101 b 1{01}0(01) c ....;", "MATRIX\na AC\nb AC\n\na GT\nb GT\n;",
+    "MATRIX a 0.5 1.5 b 2 3;", "MATRIX", "MATRIX;", "BEGIN TREES;", "TRANSLATE 1 a, 2 b, 3 c;", "TRANSLATE 1 a, 2 b;", "TRANSLATE;",
+    "TREE t = (1,2,3);", "TREE t = ((a,b),c);", "TREE * t = [&R] ((a:1,b:2):3,c:4);", "TREE t = (a,b,d);", "TREE = (a,b);", "TREE t (a,b);",
+    "BEGIN SETS;", "CHARSET x = 1-3;", "CHARSET y = 1 2 .;", "CHARSET z = 1-.\\2;", "CHARSET w = all;", "CHARSET v = 9;", "CHARSET;",
+    "LINK TAXA = t;", "LINK CHARACTERS = c;", "LINK FOO = bar;", "TITLE t;", "TITLE c;", "TITLE;", "BEGIN FOO;", "bar baz;", "BEGIN;",
+    "[a comment]", "[unterminated comment", "'unterminated quote",
+]
+
 OK_VALUE_ERRORS = ("No trees in data source", "No trees available at requested location",
                    "No character data in data source", "No character data available at requested location")
 
@@ -249,11 +262,24 @@ class C20(Machine):
                     steps.append({"k": "flip", "at": rng.randrange(max(1, len(text))), "bit": rng.randrange(7)})
                 elif r < 0.85:
                     steps.append({"k": "trunc", "at": rng.randrange(len(text) + 1)})
-                else:
+                elif r < 0.93:
                     n = rng.randint(1, 40)
                     pre = "#NEXUS\n" if doc["schema"] == "nexus" and rng.random() < 0.8 else ""
                     sep = rng.choice(["", " "])
                     steps.append({"k": "soup", "text": pre + sep.join(rng.choice(ALPHABET[doc["schema"]]) for _ in range(n))})
+                elif r < 0.97 and doc["schema"] == "nexus":
+                    # statement soup: syntactically plausible statements in an arbitrary order
+                    k = rng.randint(3, 14)
+                    steps.append({"k": "soup", "text": "#NEXUS\n" + "\n".join(rng.choice(NEXUS_STATEMENTS) for _ in range(k)) + "\n"})
+                else:
+                    # deep nesting: the node parser recurses once per level
+                    n = rng.choice([300, 990, 1200, 4000])
+                    core = "(" * n + "a" + ")" * n + ";"
+                    if doc["schema"] == "nexus":
+                        core = "#NEXUS\nBEGIN TREES;\nTREE t = " + core + "\nEND;\n"
+                    elif doc["schema"] in ("phylip", "fasta"):
+                        core = (">" if doc["schema"] == "fasta" else " 1 %d\n" % n) + "a" * n + "\n" + "ACGT" * (n // 4) + "\n"
+                    steps.append({"k": "soup", "text": core})
         return {
             "config": {"schema": doc["schema"], "route": route, "kwargs": kwargs, "data_type": doc["data_type"],
                        "template": doc["template"], "content": doc["content"]},
